@@ -199,6 +199,11 @@ async fn run(input: RunInput, mode: Mode) -> RunOutput {
     let cpu_bound = w.flag("cpu_bound_handlers", 0.3);
     let mut r_cpu = w.rng("wl:cpu-bound");
     let mut r_hangup = w.rng("wl:hangup");
+    // ... and handlers busy on a resource that is always ready (they yield only when tokio's
+    // cooperative budget makes them; the process is one busy thread meanwhile, timers fire at
+    // the next turn of the timer driver)
+    let busy_handlers = w.flag("handlers_busy_on_a_hot_resource", 0.12);
+    let mut r_busy = w.rng("wl:busy");
     let mut holder_until = vec![0u64; 5];
     let poison_ok = w.flag("a_handler_may_panic", 0.3);
     // the node whose connection manager went down with its application's panic: it publishes
@@ -225,6 +230,20 @@ async fn run(input: RunInput, mode: Mode) -> RunOutput {
                     let _ = net.rpc(pb, Request::new(Bytes::from_static(b"cpu")).with_header("x-hold-ms", hold_ms.to_string())).await;
                 });
                 w.probe("cpu-bound-handler-started");
+                interesting = true;
+            }
+        }
+        if busy_handlers && r_busy.gen_bool(0.4) {
+            let a = r_busy.gen_range(0..n);
+            let b = (a + 1 + r_busy.gen_range(0..n - 1)) % n;
+            let busy_ms: u64 = r_busy.gen_range(30..600);
+            if slots[a].node.net.peers().contains(&ids[b]) && silent_death.map(|(_, d)| d != a && d != b).unwrap_or(true) {
+                let net = slots[a].node.net.clone();
+                let pb = ids[b];
+                tokio::spawn(async move {
+                    let _ = net.rpc(pb, Request::new(Bytes::from_static(b"busy")).with_header("x-busy-ms", busy_ms.to_string())).await;
+                });
+                w.probe("busy-handler-started");
                 interesting = true;
             }
         }
@@ -656,7 +675,7 @@ async fn run(input: RunInput, mode: Mode) -> RunOutput {
                 if !listed {
                     continue;
                 }
-                let slack = (2 * lat_max / 1000 + 20) * 1_000_000;
+                let slack = (2 * lat_max / 1000 + 20 + if busy_handlers { 60 } else { 0 }) * 1_000_000;
                 let limit = t + slack;
                 // a second connection between the two registered around that instant (a re-dial
                 // racing the disconnect): which of the two got closed is not decidable from outside
